@@ -5,6 +5,7 @@ CONSTANTS
   MaxRef = 2
   MaxGen = 2
   CacheBadKey = FALSE
+  ExtBad = {"empty", "short", "keylf", "hex"}
 INIT Init
 NEXT Next
 VIEW View
